@@ -47,6 +47,15 @@ func libEncode(m model.Message) ([]byte, *message.IKEMessage, error) {
 	if err != nil {
 		return nil, nil, fmt.Errorf("building the library message: %w", err)
 	}
+	// an application logs what it is about to send; looking at a message does not change it
+	if (m.Header.MsgID^uint32(m.Header.ISPI)^uint32(len(m.Payloads))^uint32(model.ChainSize(m.Payloads)))&7 == 0 {
+		if err := probe.Try(func() error { probe.PrintAll(lm); return nil }); err != nil {
+			return nil, lm, fmt.Errorf("printing the message: %w", err)
+		}
+		if printed, perr := bridge.FromLib(lm); perr != nil || model.Diff(m, printed) != "" {
+			return nil, lm, fmt.Errorf("printing the message and its parts (%%v) changed it: %s (%v)", model.Diff(m, printed), perr)
+		}
+	}
 	var w []byte
 	err = probe.Try(func() error {
 		var e error
@@ -72,8 +81,32 @@ func libEncode(m model.Message) ([]byte, *message.IKEMessage, error) {
 // the result back into the model.
 func libDecode(w []byte) (model.Message, *message.IKEMessage, error) {
 	dm := new(message.IKEMessage)
-	if err := probe.Try(func() error { return dm.Decode(probe.Exact(w)) }); err != nil {
+	x := probe.Exact(w)
+	twoStep := len(w) >= 28 && (w[19]^w[len(w)-1]^byte(len(w)))&3 == 3
+	if err := probe.Try(func() error {
+		if !twoStep {
+			return dm.Decode(x)
+		}
+		// the two steps Decode consists of, taken by the caller (as DecodeDecrypt does with a pre-parsed header): the header
+		// was parsed in the receive buffer, which holds other octets by the time the payloads are decoded from the datagram
+		buf := append([]byte(nil), x...)
+		h, err := message.ParseHeader(buf)
+		if err != nil {
+			return err
+		}
+		for i := range buf {
+			buf[i] = buf[i]*5 + byte(i) + 0x77
+		}
+		dm.IKEHeader = h
+		return dm.DecodePayload(x[28:])
+	}); err != nil {
 		return model.Message{}, nil, fmt.Errorf("Decode: %w", err)
+	}
+	// an application logs what it received; looking at a message does not change it
+	if (w[len(w)-1]+w[len(w)/2]+byte(len(w)))&7 == 0 {
+		if err := probe.Try(func() error { probe.PrintAll(dm); return nil }); err != nil {
+			return model.Message{}, nil, fmt.Errorf("printing the decoded message: %w", err)
+		}
 	}
 	var got model.Message
 	err := probe.Try(func() error {
